@@ -73,27 +73,98 @@ theorem attributePrefixByNamespace_isSome (l : List (Nat × Nat)) (ns : Nat) :
   · rintro ⟨p, hp, hne⟩; exact ⟨p, hne, (mem_prefixesByNamespace l ns p).1 hp⟩
   · rintro ⟨p, hne, hp⟩; exact ⟨p, (mem_prefixesByNamespace l ns p).2 hp, hne⟩
 
+theorem elementPrefix_ok (env : Env) (top : List (Nat × Nat)) (name : Nat) :
+    exceptIsOk (FStack.elementPrefix env [top] name) =
+      (env.nsOfName name == Env.noNamespace || env.nsOfName name == Env.xmlNamespace ||
+        knownIn top (env.nsOfName name)) := by
+  rw [← elementPrefixByNamespace_isSome]
+  simp only [FStack.elementPrefix, FStack.top, List.headD_cons]
+  cases h0 : env.nsOfName name == Env.noNamespace
+  · cases h1 : env.nsOfName name == Env.xmlNamespace
+    · simp only [Bool.false_eq_true, ↓reduceIte, Bool.false_or]
+      cases elementPrefixByNamespace top (env.nsOfName name) with
+      | none => rfl
+      | some p => cases hp : p == Env.emptyPrefix <;> simp [hp, exceptIsOk]
+    · simp [exceptIsOk]
+  · simp [exceptIsOk]
+
+theorem attributePrefix_ok (env : Env) (top : List (Nat × Nat)) (name : Nat) :
+    exceptIsOk (FStack.attributePrefix env [top] name) =
+      (env.nsOfName name == Env.noNamespace || env.nsOfName name == Env.xmlNamespace ||
+        attrKnownIn top (env.nsOfName name)) := by
+  rw [← attributePrefixByNamespace_isSome]
+  simp only [FStack.attributePrefix, FStack.top, List.headD_cons]
+  cases h0 : env.nsOfName name == Env.noNamespace
+  · cases h1 : env.nsOfName name == Env.xmlNamespace
+    · simp only [Bool.false_eq_true, ↓reduceIte, Bool.false_or]
+      cases attributePrefixByNamespace top (env.nsOfName name) <;> rfl
+    · simp [exceptIsOk]
+  · simp [exceptIsOk]
+
 theorem elementFullname_ok (env : Env) (top : List (Nat × Nat)) (name : Nat) :
     exceptIsOk (FStack.elementFullname env [top] name) =
-      (env.nsOfName name == Env.noNamespace || knownIn top (env.nsOfName name)) := by
-  rw [← elementPrefixByNamespace_isSome]
-  simp only [FStack.elementFullname, FStack.elementPrefix, FStack.top, List.headD_cons]
-  cases h0 : env.nsOfName name == Env.noNamespace
-  · simp only [Bool.false_eq_true, ↓reduceIte, Bool.false_or]
-    cases elementPrefixByNamespace top (env.nsOfName name) with
-    | none => rfl
-    | some p => cases hp : p == Env.emptyPrefix <;> simp [hp, exceptIsOk]
-  · simp [exceptIsOk]
+      (env.nsOfName name == Env.noNamespace || env.nsOfName name == Env.xmlNamespace ||
+        knownIn top (env.nsOfName name)) := by
+  rw [← elementPrefix_ok]
+  simp only [FStack.elementFullname]
+  cases FStack.elementPrefix env [top] name <;> rfl
 
 theorem attributeFullname_ok (env : Env) (top : List (Nat × Nat)) (name : Nat) :
     exceptIsOk (FStack.attributeFullname env [top] name) =
-      (env.nsOfName name == Env.noNamespace || attrKnownIn top (env.nsOfName name)) := by
-  rw [← attributePrefixByNamespace_isSome]
-  simp only [FStack.attributeFullname, FStack.attributePrefix, FStack.top, List.headD_cons]
-  cases h0 : env.nsOfName name == Env.noNamespace
-  · simp only [Bool.false_eq_true, ↓reduceIte, Bool.false_or]
-    cases attributePrefixByNamespace top (env.nsOfName name) <;> rfl
-  · simp [exceptIsOk]
+      (env.nsOfName name == Env.noNamespace || env.nsOfName name == Env.xmlNamespace ||
+        attrKnownIn top (env.nsOfName name)) := by
+  rw [← attributePrefix_ok]
+  simp only [FStack.attributeFullname]
+  cases FStack.attributePrefix env [top] name <;> rfl
+
+/-! ### `unresolved_namespaces` never reports the no-namespace id or the XML namespace -/
+
+theorem unresolvedOfElement_real (env : Env) (top : List (Nat × Nat)) (t : Tree) (name ns : Nat)
+    (h : ns ∈ unresolvedOfElement env top t name) :
+    ns ≠ Env.noNamespace ∧ ns ≠ Env.xmlNamespace := by
+  simp only [unresolvedOfElement, List.mem_append, List.mem_filterMap, elementPrefix_ok,
+    attributePrefix_ok] at h
+  rcases h with h | ⟨a, _, h⟩
+  · by_cases hc : (env.nsOfName name == Env.noNamespace || env.nsOfName name == Env.xmlNamespace ||
+        knownIn top (env.nsOfName name)) = true
+    · simp [hc] at h
+    · simp only [hc, Bool.not_false, ↓reduceIte, List.mem_singleton] at h
+      subst h
+      simp only [Bool.or_eq_true, beq_iff_eq, not_or] at hc
+      exact ⟨hc.1.1, hc.1.2⟩
+  · by_cases hc : (env.nsOfName a == Env.noNamespace || env.nsOfName a == Env.xmlNamespace ||
+        attrKnownIn top (env.nsOfName a)) = true
+    · simp [hc] at h
+    · simp only [hc, Bool.not_false, ↓reduceIte, Option.some.injEq] at h
+      subst h
+      simp only [Bool.or_eq_true, beq_iff_eq, not_or] at hc
+      exact ⟨hc.1.1, hc.1.2⟩
+
+mutual
+theorem unresolvedRec_real (env : Env) (ns : Nat) : ∀ (t : Tree) (top : List (Nat × Nat)),
+    ns ∈ unresolvedRec env top t → ns ≠ Env.noNamespace ∧ ns ≠ Env.xmlNamespace
+  | .node v ks, top, h => by
+    cases v with
+    | element name =>
+      simp only [unresolvedRec, List.mem_append] at h
+      rcases h with h | h
+      · exact unresolvedOfElement_real env _ _ _ _ h
+      · exact unresolvedRecList_real env ns ks _ h
+    | document => exact unresolvedRecList_real env ns ks top (by simpa [unresolvedRec] using h)
+    | text s => exact unresolvedRecList_real env ns ks top (by simpa [unresolvedRec] using h)
+    | pi a b => exact unresolvedRecList_real env ns ks top (by simpa [unresolvedRec] using h)
+    | comment s => exact unresolvedRecList_real env ns ks top (by simpa [unresolvedRec] using h)
+    | «attribute» a b => exact unresolvedRecList_real env ns ks top (by simpa [unresolvedRec] using h)
+    | «namespace» a b => exact unresolvedRecList_real env ns ks top (by simpa [unresolvedRec] using h)
+theorem unresolvedRecList_real (env : Env) (ns : Nat) : ∀ (ks : List Tree) (top : List (Nat × Nat)),
+    ns ∈ unresolvedRec.unresolvedRecList env top ks → ns ≠ Env.noNamespace ∧ ns ≠ Env.xmlNamespace
+  | [], top, h => by simp [unresolvedRec.unresolvedRecList] at h
+  | k :: ks, top, h => by
+    simp only [unresolvedRec.unresolvedRecList, List.mem_append] at h
+    rcases h with h | h
+    · exact unresolvedRec_real env ns k top h
+    · exact unresolvedRecList_real env ns ks top h
+end
 
 /-! ### The DeduplicateTracker: defaults never change, flags only get set -/
 
